@@ -35,7 +35,10 @@ Clauses(o, ev, o2) ==
       [] ev.e = "quiescent" /\ o.final ->
             LET NoDisc(a) == App(o, a).started > 0 /\ App(o, a).parked = "recv" /\ App(o, a).disc = 0
                 NoAcc(a)  == App(o, a).started > 0 /\ App(o, a).kind \in {"http", "websocket"} /\ Acc(o, a) = 0
-                Ctx == IF ParkedPipeline(o) THEN "pipelined-request-parked"
+                \* (a reader parked on a pipelined request does not see the peer go - F07c - but a failing write
+                \*  of the application in progress tells the server all the same)
+                Ctx == IF ParkedPipeline(o) /\ o.lossWrite THEN "pipelined-request-parked/write-failed"
+                       ELSE IF ParkedPipeline(o) THEN "pipelined-request-parked"
                        ELSE IF UnreadLeft(o) THEN "request-messages-unread" ELSE o.cfg.carrier
             IN (IF \E a \in DOMAIN o.apps : NoDisc(a) THEN <<F("missing-disconnect", Ctx)>> ELSE <<>>)
             \o (IF \E a \in DOMAIN o.apps : NoAcc(a) THEN <<F("missing-access-record", Ctx)>> ELSE <<>>)
